@@ -1044,7 +1044,7 @@ pub fn run(shard: &Shard) -> Report {
             let seen = rep.violation_counts.get(sig).cloned().unwrap_or(0);
             let mut r = replay.clone().set("violation", sig.clone());
             let mut what = what.clone();
-            if seen < 1 || shard.replay.is_some() {
+            if seen < 1 {
                 // shrink: drop the inconsistent creation attempt, then steps
                 let mut c = case.clone();
                 let test = |c: &Case| {
